@@ -292,6 +292,11 @@ def sub_keys_meters(ctx, shard, n):
                           "repeat": (i + j) % 2})
     ctx.exhaustive("write_Track: every key x every meter", "30 keys x 72 meters" + (" (every third)" if ctx.quick else ""), len(cases))
     ctx.enumerate("track", check_track, cases[shard::n])
+    # bars holding one entry (a rest, an empty container or a note of value 1, 2, 4 or the beat unit) in every meter, written once and repeated
+    lone = [{"track": t, "bpm": 120, "repeat": i % 2} for i, t in enumerate(SG.lone_entry_tracks())]
+    if shard == 0:
+        ctx.exhaustive("write_Track: bars of one entry in every meter", "72 meters x up to 4 values", len(lone))
+    ctx.enumerate("track", check_track, lone[shard::n])
 
 
 def sub_nc(ctx, shard, n):
